@@ -9,6 +9,16 @@ import ParryModel.C20.Theorems6
 import ParryModel.C20.Theorems7
 import ParryModel.C20.Theorems8
 import ParryModel.C20.Theorems9
+import ParryModel.C20.Theorems10
+import ParryModel.C20.Theorems11
+import ParryModel.C20.Theorems12
+import ParryModel.C20.Theorems13
+import ParryModel.C20.Theorems14
+import ParryModel.C20.Theorems15
+import ParryModel.C20.Theorems16
+import ParryModel.C20.Theorems17
+import ParryModel.C20.Theorems18
+import ParryModel.C20.Theorems19
 /-!
 # C20 theorems: definedness at the NaN-propagating instance `NaNable = Option Rat`
 (`x/0 = none`, `sqrt` of a negative = `none`, every comparison with `none` is false — IEEE behaviour).
